@@ -83,7 +83,12 @@ func VerifH_C08_StreamEntitySelectionPlusFilterSelectExactly() {
 		if c08Pick("logical op", 2) == 1 {
 			op = modelv1.LogicalExpression_LOGICAL_OP_OR
 			want = lm || rm
-			entityOrOther = le != re
+			// on the unchanged tree the rows lost are those that satisfy ONLY the entity side
+			if le && !re {
+				entityOrOther = !rm
+			} else if re && !le {
+				entityOrOther = !lm
+			}
 		}
 		criteria = &modelv1.Criteria{Exp: &modelv1.Criteria_Le{Le: &modelv1.LogicalExpression{Op: op, Left: l, Right: r}}}
 	}
